@@ -51,6 +51,8 @@ Fixpoint merge_changes_l (chunks : list str) (st : option (list str)) : list och
                     match index_of name cc 0 with
                     | Some i => [OSrc chunk] ++ merge_changes_l rest (Some (skipn (S i) cc))
                     | None =>
+                        if mem_str name Tables.empty_tags then [OSrc chunk] ++ merge_changes_l rest (Some cc)
+                        else
                         map OSynClose cc ++ [OClose; OSrc chunk; OOpen] ++
                         map OSynOpen (rev cc) ++ merge_changes_l rest (Some cc)
                     end
@@ -81,7 +83,9 @@ Proof.
            ++ rewrite !map_app, map_map. cbn [map render_o]. rewrite IH. reflexivity.
            ++ destruct (index_of _ cc 0).
               ** cbn [map app render_o]. rewrite IH. reflexivity.
-              ** rewrite !map_app, !map_map. cbn [map render_o]. rewrite IH. reflexivity.
+              ** destruct (mem_str _ empty_tags).
+                 --- cbn [map app render_o]. rewrite IH. reflexivity.
+                 --- rewrite !map_app, !map_map. cbn [map render_o]. rewrite IH. reflexivity.
         -- cbn [map app render_o]. rewrite IH. reflexivity.
       * destruct (is_block_name _).
         -- destruct st as [cc|].
@@ -137,7 +141,7 @@ Proof.
       * destruct st as [cc|].
         -- destruct (is_block_name _).
            ++ srcs_norm. rewrite IH. reflexivity.
-           ++ destruct (index_of _ cc 0); srcs_norm; rewrite IH; reflexivity.
+           ++ destruct (index_of _ cc 0); [|destruct (mem_str _ empty_tags)]; srcs_norm; rewrite IH; reflexivity.
         -- srcs_norm. rewrite IH. reflexivity.
       * destruct (is_block_name _).
         -- destruct st as [cc|]; srcs_norm; rewrite IH; reflexivity.
@@ -214,7 +218,9 @@ Proof.
            ++ destruct (index_of (chunk_tag_name chunk) cc 0) as [i|].
               ** cbn [app scan]. unfold is_block_chunk. rewrite Elt, Eb. cbn [andb].
                  apply (IH (Some (skipn (S i) cc))). apply nonblock_skipn, Hst.
-              ** rewrite (scan_app _ _ true true (scan_synclose cc Hst)). cbn [app scan andb].
+              ** destruct (mem_str _ empty_tags).
+                 { cbn [app scan]. unfold is_block_chunk. rewrite Elt, Eb. cbn [andb]. apply (IH (Some cc) Hst). }
+                 rewrite (scan_app _ _ true true (scan_synclose cc Hst)). cbn [app scan andb].
                  rewrite (scan_app _ _ true true (scan_synopen_inside _ (nonblock_rev cc Hst))).
                  apply (IH (Some cc) Hst).
         -- cbn [app scan andb]. apply (IH None I).
@@ -282,6 +288,8 @@ Fixpoint merge_groups_l (chunks : list str) (st : option (list ochunk * list str
                     match index_of name cc 0 with
                     | Some i => merge_groups_l rest (Some (OSrc chunk :: g, skipn (S i) cc))
                     | None =>
+                        if mem_str name Tables.empty_tags then merge_groups_l rest (Some (OSrc chunk :: g, cc))
+                        else
                         let g' := rev (map OSynOpen (rev cc)) ++ [OOpen] ++ [OSrc chunk] ++ [OClose] ++
                                   rev (map OSynClose cc) ++ g in
                         merge_groups_l rest (Some (g', cc))
@@ -341,7 +349,9 @@ Proof.
            ++ cbn [map render_item]. rewrite CM, (IH None). reflexivity.
            ++ destruct (index_of _ cc 0).
               ** rewrite IH. cbn [render_gstate]. rewrite render_rev_cons. reflexivity.
-              ** rewrite IH. cbn [render_gstate]. f_equal. f_equal. f_equal.
+              ** destruct (mem_str _ empty_tags).
+                 { rewrite IH. cbn [render_gstate]. rewrite render_rev_cons. reflexivity. }
+                 rewrite IH. cbn [render_gstate]. f_equal. f_equal. f_equal.
                  pose proof (render_og_short tt) as Hs.
                  rewrite (flat_map_rev _ _ Hs), rev_involutive, !flat_map_app.
                  rewrite (flat_map_rev _ (map OSynOpen (rev cc)) Hs), render_synopen.
@@ -391,7 +401,10 @@ Proof.
            ++ destruct (index_of (chunk_tag_name chunk) cc 0) as [i|].
               ** apply IH. split; [|apply nonblock_skipn, Hcc]. cbn [rev].
                  rewrite (scan_snoc _ _ _ true Hg). cbn [scan]. unfold is_block_chunk. rewrite Elt, Eb. reflexivity.
-              ** apply IH. split; [|exact Hcc].
+              ** destruct (mem_str _ empty_tags).
+                 { apply IH. split; [|exact Hcc]. cbn [rev].
+                   rewrite (scan_snoc _ _ _ true Hg). cbn [scan]. unfold is_block_chunk. rewrite Elt, Eb. reflexivity. }
+                 apply IH. split; [|exact Hcc].
                  rewrite !rev_app_distr, rev_involutive. cbn [rev app]. rewrite rev_involutive.
                  rewrite <- !app_assoc.
                  rewrite (scan_app _ _ false true Hg).
@@ -438,7 +451,8 @@ Proof.
            ++ cbn [flat_map item_srcs]. rewrite (IH None). srcs_norm. rewrite <- !app_assoc. reflexivity.
            ++ destruct (index_of _ cc 0).
               ** rewrite IH, Snoc, <- app_assoc. reflexivity.
-              ** rewrite IH. rewrite !rev_app_distr, !rev_involutive. srcs_norm.
+              ** destruct (mem_str _ empty_tags); [rewrite IH, Snoc, <- app_assoc; reflexivity|].
+                 rewrite IH. rewrite !rev_app_distr, !rev_involutive. srcs_norm.
                  cbn [rev app]. srcs_norm. rewrite !app_nil_r, <- !app_assoc. reflexivity.
         -- cbn [flat_map item_srcs app]. rewrite (IH None). reflexivity.
       * destruct (is_block_name _).
